@@ -96,14 +96,16 @@ func c18Fork(c *Ctx) {
 	}
 	good := false
 	detail := "no Launch call"
-	for _, b := range analyze.Blocks {
-		for _, ins := range b.Instrs {
-			if call, ok := ins.(*ssa.Call); ok && call.Call.IsInvoke() && call.Call.Method.Name() == "Launch" {
-				e := pathExpr(call.Call.Args[1])
-				good = e == "Fork(e.b)"
-				detail = "launches on " + e
-			}
+	for _, ev := range flatten(analyze, func(ins ssa.Instruction, fr *flatFrame) (string, *types.Var, ssa.Value) {
+		if call, ok := ins.(*ssa.Call); ok && call.Call.IsInvoke() && call.Call.Method.Name() == "Launch" {
+			return "launch", nil, call
 		}
+		return "", nil, nil
+	}) {
+		call := ev.Val.(*ssa.Call)
+		e := pathExpr(ev.frame.resolve(call.Call.Args[1]))
+		good = e == "Fork(e.b)"
+		detail = "launches on " + e
 	}
 	r.Check(good, "R18-fork", "Engine.Analyze launches the search on a fork of the game", c.pos(analyze.Pos()), "", detail)
 	// Engine.Board returns a fork
@@ -182,7 +184,7 @@ func c18Sources(c *Ctx, reach map[*ssa.Function][]*ssa.Function) {
 		}
 	}
 	sort.Slice(fns, func(i, j int) bool { return fns[i].String() < fns[j].String() })
-	var mapRanges []string
+	var mapRangeSites []*ssa.Range
 	for _, fn := range fns {
 		n++
 		for _, b := range fn.Blocks {
@@ -194,7 +196,7 @@ func c18Sources(c *Ctx, reach map[*ssa.Function][]*ssa.Function) {
 				}
 				if rg, ok := ins.(*ssa.Range); ok {
 					if _, isMap := rg.X.Type().Underlying().(*types.Map); isMap {
-						mapRanges = append(mapRanges, c.P.FuncName(fn))
+						mapRangeSites = append(mapRangeSites, rg)
 					}
 				}
 			}
@@ -202,18 +204,17 @@ func c18Sources(c *Ctx, reach map[*ssa.Function][]*ssa.Function) {
 	}
 	r.Check(len(bad) == 0 && n > 20, "R18-sources", "no clock, global random source or environment in search code", "", "", strings.Join(bad, "; "))
 
-	// map iteration: frozen exceptions
-	frozen := map[string]string{
-		"cmd/turochamp/turochamp.PositionPlay": "sums the per-piece mobility bonuses (commutative; each term is rounded to 0.1 before it is added and the total is rounded again by Eval)",
-		"(*pkg/board.Board).Fork":              "copies every counter into a fresh map (order-independent)",
-	}
+	// map iteration: allowed only where the loop is insensitive to the order by its shape - it copies
+	// entries into another map under their own key, or folds the values into an accumulator with a
+	// commutative operator (float sums differ at most in the last bits; the two uses here are rounded
+	// afterwards) - and cannot be left early
 	var unexpected []string
-	for _, f := range mapRanges {
-		if _, ok := frozen[f]; !ok {
-			unexpected = append(unexpected, f)
+	for _, mr := range mapRangeSites {
+		if ok, why := orderInsensitiveMapLoop(mr); !ok {
+			unexpected = append(unexpected, fmt.Sprintf("%s at %s: %s", c.P.FuncName(mr.Parent()), c.pos(mr.Pos()), why))
 		}
 	}
-	r.Check(len(unexpected) == 0, "R18-maporder", "no order-sensitive map iteration in search code", "", "", fmt.Sprintf("map iteration in %v (reviewed exceptions: %v)", unexpected, keysOfStr(frozen)))
+	r.Check(len(unexpected) == 0, "R18-maporder", "no order-sensitive map iteration in search code", "", "", fmt.Sprintf("%d map iteration(s) in search code; order-sensitive: %v", len(mapRangeSites), unexpected))
 
 	// every rand.New in the repo is seeded from a parameter / field, never from the clock
 	var seeds []string
@@ -463,4 +464,167 @@ func faFieldName(fa *ssa.FieldAddr) string {
 		}
 	}
 	return fmt.Sprintf("#%d", fa.Field)
+}
+
+// orderInsensitiveMapLoop decides, on the shape of a `for .. range m` loop over a map, that its
+// effect does not depend on the iteration order.
+func orderInsensitiveMapLoop(rg *ssa.Range) (bool, string) {
+	// the header: the block with Next(rg)
+	var next *ssa.Next
+	for _, ref := range *rg.Referrers() {
+		if n, ok := ref.(*ssa.Next); ok {
+			next = n
+		}
+	}
+	if next == nil {
+		return false, "iterator never advanced"
+	}
+	header := next.Block()
+	inLoop := map[*ssa.BasicBlock]bool{header: true}
+	var mark func(b *ssa.BasicBlock)
+	mark = func(b *ssa.BasicBlock) {
+		if inLoop[b] {
+			return
+		}
+		inLoop[b] = true
+		for _, p := range b.Preds {
+			mark(p)
+		}
+	}
+	for _, p := range header.Preds {
+		if header.Dominates(p) {
+			mark(p)
+		}
+	}
+	var keyV ssa.Value
+	for _, ref := range *next.Referrers() {
+		if ex, ok := ref.(*ssa.Extract); ok && ex.Index == 1 {
+			keyV = ex
+		}
+	}
+	acc := map[*ssa.Phi]bool{}
+	for b := range inLoop {
+		if b != header {
+			for _, sc := range b.Succs {
+				if !inLoop[sc] {
+					return false, "the loop can be left before all entries were visited"
+				}
+			}
+			if len(b.Succs) == 0 {
+				return false, "the loop can be left before all entries were visited"
+			}
+		}
+		for _, ins := range b.Instrs {
+			switch x := ins.(type) {
+			case *ssa.Next, *ssa.Extract, *ssa.If, *ssa.Jump, *ssa.BinOp, *ssa.Convert, *ssa.ChangeType, *ssa.DebugRef, *ssa.FieldAddr, *ssa.IndexAddr, *ssa.Field, *ssa.Index, *ssa.Lookup:
+			case *ssa.UnOp:
+				if x.Op == token.ARROW {
+					return false, "receives from a channel inside the loop"
+				}
+			case *ssa.Phi:
+				if b == header {
+					acc[x] = true
+				}
+			case *ssa.MapUpdate:
+				if x.Key != keyV {
+					return false, "writes another map under a key that is not the entry's own key"
+				}
+			case *ssa.Call:
+				if !pureCall(x, 0) {
+					return false, "calls " + pathExpr(x.Call.Value) + " whose effects are not known to be order-free"
+				}
+			default:
+				return false, fmt.Sprintf("%T inside the loop", ins)
+			}
+		}
+	}
+	for phi := range acc {
+		for i, e := range phi.Edges {
+			if !inLoop[header.Preds[i]] {
+				continue // initial value
+			}
+			bo, ok := e.(*ssa.BinOp)
+			if !ok || !(bo.Op == token.ADD || bo.Op == token.OR || bo.Op == token.XOR || bo.Op == token.AND || bo.Op == token.MUL) {
+				if e == ssa.Value(phi) {
+					continue
+				}
+				return false, "a loop-carried variable is not folded with a commutative operator"
+			}
+			if bo.X != ssa.Value(phi) && bo.Y != ssa.Value(phi) {
+				return false, "a loop-carried variable is overwritten rather than accumulated"
+			}
+			other := bo.X
+			if other == ssa.Value(phi) {
+				other = bo.Y
+			}
+			if dependsOnPhi(other, acc, map[ssa.Value]bool{}) {
+				return false, "the accumulated term depends on what was accumulated so far"
+			}
+		}
+	}
+	return true, ""
+}
+
+func dependsOnPhi(v ssa.Value, phis map[*ssa.Phi]bool, seen map[ssa.Value]bool) bool {
+	if seen[v] {
+		return false
+	}
+	seen[v] = true
+	if p, ok := v.(*ssa.Phi); ok && phis[p] {
+		return true
+	}
+	ins, ok := v.(ssa.Instruction)
+	if !ok {
+		return false
+	}
+	for _, op := range ins.Operands(nil) {
+		if *op != nil && dependsOnPhi(*op, phis, seen) {
+			return true
+		}
+	}
+	return false
+}
+
+// pureCall: a call that only computes (math functions, conversions, small repo functions without
+// stores, map updates, sends or impure calls).
+func pureCall(call *ssa.Call, depth int) bool {
+	if _, ok := call.Call.Value.(*ssa.Builtin); ok {
+		n := call.Call.Value.(*ssa.Builtin).Name()
+		return n == "len" || n == "cap" || n == "min" || n == "max"
+	}
+	f := call.Call.StaticCallee()
+	if f == nil {
+		return false
+	}
+	if f.Pkg != nil {
+		switch f.Pkg.Pkg.Path() {
+		case "math", "math/bits", "strconv", "unicode":
+			return true
+		}
+	}
+	if f.Blocks == nil || depth > 2 {
+		return false
+	}
+	for _, b := range f.Blocks {
+		for _, ins := range b.Instrs {
+			switch x := ins.(type) {
+			case *ssa.Store:
+				if _, local := x.Addr.(*ssa.Alloc); !local {
+					if fa, ok := x.Addr.(*ssa.FieldAddr); ok {
+						if _, local := fa.X.(*ssa.Alloc); local {
+							continue
+						}
+					}
+					return false
+				}
+			case *ssa.MapUpdate, *ssa.Send, *ssa.Go, *ssa.Defer, *ssa.Panic:
+				return false
+			case *ssa.Call:
+				if !pureCall(x, depth+1) {
+					return false
+				}
+			}
+		}
+	}
+	return true
 }
